@@ -51,3 +51,33 @@ func TestC15ErrorWhileOtherBarInWidthSync(t *testing.T) {
 		t.Fatal("Progress.Wait did not return 3s after a filler error: bar 0 is blocked in decor.WC.Format")
 	}
 }
+
+// C15 / C14 / C05, found by a bug-hunting sub-agent and then by the C15 check's notifier clause: the repair a1ea537
+// (drain the started renders before dropping the cycle) received the remaining bars from the ordered iteration, which
+// pops them off the heap, and did not push them back: every healthy bar displayed above the failing one vanished from
+// the container, and the shutdown notifier listed none of them.
+func TestC15RenderErrorKeepsOtherBars(t *testing.T) {
+	notify := make(chan interface{}, 1)
+	p := mpb.New(mpb.WithOutput(io.Discard), mpb.WithAutoRefresh(), mpb.WithRefreshRate(5*time.Millisecond), mpb.WithShutdownNotifier(notify))
+	a := p.AddBar(10)
+	b := p.AddBar(10)
+	bad, err := p.Add(10, mpb.BarFillerFunc(func(w io.Writer, st decor.Statistics) error { return errors.New("filler failed") }))
+	if err != nil {
+		t.Fatal(err)
+	}
+	p.Wait()
+	_ = bad
+	select {
+	case v := <-notify:
+		bars := v.([]*mpb.Bar)
+		ids := map[int]bool{}
+		for _, x := range bars {
+			ids[x.ID()] = true
+		}
+		if !ids[a.ID()] || !ids[b.ID()] {
+			t.Fatalf("after a render error the shutdown notifier lists bars %v; the two healthy bars (%d, %d) were never removed", ids, a.ID(), b.ID())
+		}
+	case <-time.After(5 * time.Second):
+		t.Fatal("no value on the shutdown notifier")
+	}
+}
